@@ -129,6 +129,48 @@ theorem walkPath_step (e : Elem) (ctx : Ctx) (name : String) (rest : List String
     (h : getChild e ctx name = some r) : walkPath e ctx (name :: rest) = walkPath r (e.scope :: ctx) rest := by
   simp [walkPath, h]
 
+/-- **unset removes exactly the attribute `getAttribute` finds**: the list before it and the list
+after it are kept as they are - no other attribute with that local name goes with it. -/
+theorem unset_removes_one (e : Elem) (ctx : Ctx) (q : String) (k : Nat) (h : getAttrIdx e ctx q = some k) :
+    attrsAfterUnset e ctx q = e.attrs.take k ++ e.attrs.drop (k + 1) ∧ k < e.attrs.length := by
+  have hk : k < e.attrs.length := by
+    unfold getAttrIdx at h
+    exact (List.findIdx?_eq_some_iff_getElem.mp h).1
+  refine ⟨?_, hk⟩
+  simp only [attrsAfterUnset, h]
+  exact List.eraseIdx_eq_take_drop_succ _ _
+
+theorem unset_length (e : Elem) (ctx : Ctx) (q : String) (k : Nat) (h : getAttrIdx e ctx q = some k) :
+    (attrsAfterUnset e ctx q).length + 1 = e.attrs.length := by
+  have hk := (unset_removes_one e ctx q k h).2
+  simp only [attrsAfterUnset, h, List.length_eraseIdx, hk, if_true]
+  omega
+
+/-- Nothing matches: nothing changes. -/
+theorem unset_absent (e : Elem) (ctx : Ctx) (q : String) (h : getAttrIdx e ctx q = none) :
+    attrsAfterUnset e ctx q = e.attrs := by
+  simp only [attrsAfterUnset, h]
+
+/-- **set changes one value in place** (name, prefix, position and every other attribute kept) ... -/
+theorem set_existing (e : Elem) (ctx : Ctx) (q v : String) (k : Nat) (h : setAttrIdx e ctx q = some k)
+    (hk : k < e.attrs.length) :
+    (attrsAfterSet e ctx q v).length = e.attrs.length ∧
+    (attrsAfterSet e ctx q v)[k]? = some { e.attrs[k] with value := v } ∧
+    ∀ j, j ≠ k → (attrsAfterSet e ctx q v)[j]? = e.attrs[j]? := by
+  simp only [attrsAfterSet, h]
+  refine ⟨by simp, ?_, ?_⟩
+  · simp [hk, List.getD_eq_getElem?_getD]
+  · intro j hj
+    simp [Ne.symm hj]
+
+/-- ... **or appends one new attribute** when none is named. -/
+theorem set_new (e : Elem) (ctx : Ctx) (q v : String) (h : setAttrIdx e ctx q = none) :
+    attrsAfterSet e ctx q v = e.attrs ++ [⟨(splitPrefix q).1, (splitPrefix q).2, v⟩] := by
+  simp only [attrsAfterSet, h]
+
+/-- Non-vacuity: a node holding `p:k` and `k`; unsetting the first leaves the second. -/
+example : ([⟨some "p", "k", "1"⟩, ⟨none, "k", "2"⟩] : List Attr).eraseIdx 0 = [⟨none, "k", "2"⟩] := by decide
+
 /-! (worked instances of the path lookups are in the correspondence: `splitPrefix` goes through
 `String.splitOn`, which `decide` does not reduce) -/
 
